@@ -23,7 +23,7 @@ fn skip_prefix(g: &mut Generator, prefix: u64) {
 /// histories that start after a multi-GiB zero prefix (hook): delivery forms, clones and intermediate
 /// finalizations at the largest block sizes, totals ending exactly at / just below the 192 GiB limit
 #[cfg(a4lg_ffuzzy_verif)]
-fn large_offset_case(l: &mut Local, rng: &mut Rng, words: &Words, i: u64) {
+pub fn large_offset_case(l: &mut Local, rng: &mut Rng, words: &Words, i: u64) {
     let mut payload = Vec::new();
     let lv = *rng.pick(&[30usize, 30, 30, 29]);
     for _ in 0..rng.urange(20, 70) {
@@ -185,7 +185,7 @@ impl<'a> std::io::Read for ChunkReader<'a> {
     }
 }
 
-fn check_payload(l: &mut Local, rng: &mut Rng, data: &[u8], exhaustive: bool, n_random: usize) {
+pub fn check_payload(l: &mut Local, rng: &mut Rng, data: &[u8], exhaustive: bool, n_random: usize) {
     let mut m = GModel::new();
     m.update(data);
     let want = m.expect();
